@@ -106,9 +106,38 @@ def cases(draw, slot):
         else:
             _add_pes(spec, fanout)
             relax = {"kind": kind, "knob": "explore_imperfect_spatial_loops", "to": True}
+    elif kind == "imperfect_temporal" and (slot.get("targeted") or draw(st.integers(0, 2))):
+        # targeted: one rank with a composite bound >= 12 and a cheap GLB whose capacity is swept between the tile
+        # footprints, so that a large proper divisor (6 of 12, 8 of 16, ...) is often the optimal tile: the imperfect
+        # mapspace must still contain it
+        shape = draw(st.sampled_from(["matmul", "matmul", "matvec"]))
+        es, rvs = G.matmul_ab() if shape == "matmul" else G.matvec()
+        bigrv = draw(st.sampled_from(rvs))
+        bounds = {rv: draw(st.sampled_from([12, 12, 14, 16, 18, 20, 24] if rv == bigrv else [2, 3, 4, 4, 6, 12])) for rv in rvs}
+        bits = draw(st.sampled_from([4, 8]))
+        big = max(G.tensor_sizes({"einsums": es, "bounds": bounds}).values())
+        vals = draw(st.integers(6, max(8, big)))
+        if draw(st.integers(0, 3)):
+            # capacity just above the footprint of a tile that takes a large proper divisor of the big rank
+            O = bounds[bigrv]
+            d = draw(st.sampled_from([x for x in range(O // 3 + 1, O) if O % x == 0]))
+            other = draw(st.sampled_from([bounds[rv] for rv in rvs if rv != bigrv] + [1]))
+            vals = d * other + draw(st.integers(1, 2 + max(bounds.values())))
+        dear = draw(st.sampled_from([20, 50, 100]))
+        spec = {"shape": shape, "einsums": es, "bounds": bounds, "bits": {"All": bits}, "n_instances": 1, "mapper": {},
+                "nodes": [{"type": "Memory", "name": "Main", "size": "inf", "keep": "All", "may_keep": "All",
+                           "read": [dear, draw(st.sampled_from(["inf", 1, 4]))], "write": [dear, draw(st.sampled_from(["inf", 1, 4]))], "leak": 0},
+                          {"type": "Memory", "name": "GLB", "size": vals * bits + _half(bits), "keep": "Nothing", "may_keep": "All",
+                           "read": [1, draw(st.sampled_from(["inf", 4, 16]))], "write": [1, draw(st.sampled_from(["inf", 4, 16]))], "leak": 0},
+                          {"type": "Compute", "name": "MAC", "compute": [1, draw(st.sampled_from([1, 2]))], "leak": 0}]}
+        relax = {"kind": kind, "knob": "explore_imperfect_temporal_loops", "to": True}
     elif kind == "imperfect_temporal":
-        spec = draw(MM.small_specs(shapes=("matmul", "matvec", "matvec", "elementwise2"), bound_pool=[3, 5, 5, 7, 7],
-                                   three_level_single=False, tight="very", dear_main=draw(st.sampled_from(["glb_good", "glb_good", None]))))
+        # primes (imperfect tiles are the only proper tiles) and composites >= 12 (the imperfect enumeration has
+        # plateaus in ceil(bound / tile) there, and must still contain every perfect divisor)
+        spec = draw(MM.small_specs(shapes=("matmul", "matmul", "matvec", "elementwise2"),
+                                   bound_pool=draw(st.sampled_from([[3, 5, 5, 7, 7], [4, 12, 12, 16, 18, 20], [3, 5, 12, 14, 16, 24]])),
+                                   max_ops=1600, three_level_single=False, tight=draw(st.sampled_from(["very", True])),
+                                   dear_main=draw(st.sampled_from(["glb_good", "glb_good", None]))))
         relax = {"kind": kind, "knob": "explore_imperfect_temporal_loops", "to": True}
     else:
         spec = draw(MM.small_specs(tight=("very" if kind == "size" else False),
@@ -138,6 +167,8 @@ def cases(draw, slot):
             else:
                 glb["keep"] = f"~Main | ({forced})"
                 relax = {"kind": kind, "node": "GLB", "to": "~Main"}
+    if slot.get("targeted"):
+        spec["family"] = "imperfect-targeted"
     return {"spec": spec, "relax": relax, "metrics": metrics}
 
 
@@ -174,7 +205,7 @@ def check(desc, col):
     a = MM.run(spec, metrics=metrics, what="strict run")
     b = MM.run(spec2, metrics=metrics, what=f"relaxed run ({kind})")
     obj = OBJ[metrics]
-    labels = MM.shape_labels(spec) + [f"relax:{kind}", f"metrics:{metrics}"]
+    labels = MM.shape_labels(spec) + [f"relax:{kind}", f"metrics:{metrics}"] + (["family:imperfect-targeted"] if spec.get("family") else [])
     samp = {"shape": spec["shape"], "bounds": spec["bounds"], "relax": relax, "metrics": metrics,
             "strict_mapper": spec.get("mapper")}
     if not a.feasible:
@@ -200,6 +231,7 @@ def check(desc, col):
 
 
 N = {"quick": 36, "thorough": 450}
+N_TARGETED = {"quick": 64, "thorough": 480}
 
 
 def shards(tier, seed):
@@ -211,6 +243,10 @@ def shards(tier, seed):
         # a PE array changes latency first: spatial kinds are mapped for LATENCY / EDP three times out of four
         pool = SPATIAL_METRICS if kind in ("loop_bounds", "min_usage", "imperfect_spatial") else METRICS
         slots.append({"kind": kind, "metrics": pool[(i // nk + i % nk) % len(pool)]})
+    # extra cheap slots for the targeted imperfect-temporal family (a lost tile candidate only shows when that very
+    # tile is the optimum: ~5 % of these specs expose such a loss, measured on a seeded change)
+    for i in range(N_TARGETED[tier]):
+        slots.append({"kind": "imperfect_temporal", "metrics": METRICS[i % 2 * 2], "targeted": True})
     return MM.deal(slots, tier, seed)
 
 
